@@ -24,6 +24,7 @@ package engine
 //@   use seqmonitor(S, false, b)
 //@   use seqpost(S, b, rb != nil && len(S) > 0)
 //@   ensures [C04] norules: rb == nil || len(S) == 0 ==> result != nil && cursor == 0
+//@   ensures [C11] newmap: rb != nil ==> g.returnResult != nil && fresh(g.returnResult)
 //@   modifies frame rulerun, g.returnResult
 //@   nopanic
 //@   use seqloop(0, S, b)
@@ -37,6 +38,7 @@ package engine
 //@   use seqmonitor(S, sTag.StopTag, b)
 //@   use seqpost(S, b, rb != nil && len(S) > 0)
 //@   ensures [C04] norules: rb == nil || len(S) == 0 ==> result != nil && cursor == 0
+//@   ensures [C11] newmap: rb != nil ==> g.returnResult != nil && fresh(g.returnResult)
 //@   modifies frame rulerun, g.returnResult
 //@   nopanic
 //@   use seqloop(0, S, b)
@@ -55,6 +57,7 @@ package engine
 //@   use seqmonitor(rules, false, true)
 //@   use seqpost(rules, true, cursor > 0)
 //@   ensures [C12] nothingselected: cursor == 0 ==> result != nil
+//@   ensures [C11] newmap: rb != nil ==> g.returnResult != nil && fresh(g.returnResult)
 //@   modifies frame rulerun, g.returnResult
 //@   nopanic
 //@   use seqloop(1, rules, true)
@@ -80,6 +83,7 @@ package engine
 //@     after R := ite(t_tret, setadd(R, b_rr.RuleName), R)
 //@   ensures [C05] errpolicy: rb != nil && len(rb.Kc.RuleEntities) > 0 ==> ((result != nil) <==> anyfail)
 //@   ensures [C11] resultmap: rb != nil ==> fresh(g.returnResult) && dom(g.returnResult) == R
+//@   ensures [C11] newmap: rb != nil ==> g.returnResult != nil && fresh(g.returnResult)
 //@   modifies frame rulerun, g.returnResult
 //@   nopanic
 //@   loop 0 invariant forks: forked(wg) == nfork && nfork == itercount && added(wg) == len(KC0.RuleEntities)
@@ -104,6 +108,7 @@ package engine
 //@   ensures [C05] mix: rb != nil && len(S) > 0 ==> cursor == 1 && ((result != nil) <==> (failed || cfailed)) && (nfork == 0 || nfork == len(S) - 1) && (nfork == 0 ==> (failed || len(S) == 1)) && (failed ==> nfork == 0)
 //@   ensures [C05] norules: rb == nil || len(S) == 0 ==> result != nil && cursor == 0 && nfork == 0
 //@   ensures [C11] resultmap: rb != nil ==> !pend && fresh(g.returnResult) && dom(g.returnResult) == R
+//@   ensures [C11] newmap: rb != nil ==> g.returnResult != nil && fresh(g.returnResult)
 //@   modifies frame rulerun, g.returnResult
 //@   nopanic
 //@   use forkloop(0, wg, len(S) - 1, 0)
@@ -125,6 +130,7 @@ package engine
 //@   ensures [C14] stopnofork: stopped ==> nfork == 0
 //@   ensures [C05] norules: rb == nil || len(S) == 0 ==> result != nil && cursor == 0 && nfork == 0
 //@   ensures [C11] resultmap: rb != nil ==> !pend && fresh(g.returnResult) && dom(g.returnResult) == R
+//@   ensures [C11] newmap: rb != nil ==> g.returnResult != nil && fresh(g.returnResult)
 //@   modifies frame rulerun, g.returnResult
 //@   nopanic
 //@   use forkloop(0, wg, len(S) - 1, 0)
@@ -151,6 +157,7 @@ package engine
 //@   ensures [C05] invmix: rb != nil && len(S) > 2 ==> nfork == len(S) - 1 && ((result != nil) <==> (failed || cfailed)) && (cursor == 1 || cursor == 0) && (cursor == 0 <==> cfailed)
 //@   ensures [C05] norules: rb == nil || len(S) == 0 ==> result != nil && cursor == 0 && nfork == 0
 //@   ensures [C11] resultmap: rb != nil ==> !pend && fresh(g.returnResult) && dom(g.returnResult) == R
+//@   ensures [C11] newmap: rb != nil ==> g.returnResult != nil && fresh(g.returnResult)
 //@   modifies frame rulerun, g.returnResult
 //@   nopanic
 //@   loop 0 invariant cur: cursor == rangeindex + 1 && 0 <= cursor && cursor <= len(S) && len(S) <= 2 && !failed && nfork == 0 && stage == 0
@@ -177,6 +184,7 @@ package engine
 //@   use seqmonitor(rules, false, b)
 //@   use seqpost(rules, b, cursor > 0)
 //@   ensures [C12] nothingselected: cursor == 0 ==> result != nil
+//@   ensures [C11] newmap: rb != nil ==> g.returnResult != nil && fresh(g.returnResult)
 //@   modifies frame rulerun, g.returnResult
 //@   nopanic
 //@   use seqloop(1, rules, b)
@@ -194,6 +202,7 @@ package engine
 //@   use seqmonitor(rules, false, b)
 //@   use seqpost(rules, b, cursor > 0)
 //@   ensures [C12] nothingselected: cursor == 0 ==> result != nil
+//@   ensures [C11] newmap: rb != nil ==> g.returnResult != nil && fresh(g.returnResult)
 //@   modifies frame rulerun, g.returnResult
 //@   nopanic
 //@   use seqloop(1, rules, b)
@@ -214,6 +223,7 @@ package engine
 //@   use seqmonitor(rules, sTag.StopTag, b)
 //@   use seqpost(rules, b, cursor > 0)
 //@   ensures [C12] nothingselected: cursor == 0 ==> result != nil
+//@   ensures [C11] newmap: rb != nil ==> g.returnResult != nil && fresh(g.returnResult)
 //@   modifies frame rulerun, g.returnResult
 //@   nopanic
 //@   use seqloop(1, rules, b)
@@ -231,6 +241,7 @@ package engine
 //@   use seqmonitor(rules, sTag.StopTag, b)
 //@   use seqpost(rules, b, cursor > 0)
 //@   ensures [C12] nothingselected: cursor == 0 ==> result != nil
+//@   ensures [C11] newmap: rb != nil ==> g.returnResult != nil && fresh(g.returnResult)
 //@   modifies frame rulerun, g.returnResult
 //@   nopanic
 //@   use seqloop(1, rules, b)
@@ -259,6 +270,7 @@ package engine
 //@   ensures [C12] all: cursor + nfork > 0 ==> cursor + nfork == len(rules) && ((result != nil) <==> (failed || cfailed))
 //@   ensures [C12] nothingselected: cursor + nfork == 0 ==> result != nil
 //@   ensures [C11] resultmap: rb != nil ==> !pend && fresh(g.returnResult) && dom(g.returnResult) == R
+//@   ensures [C11] newmap: rb != nil ==> g.returnResult != nil && fresh(g.returnResult)
 //@   modifies frame rulerun, g.returnResult
 //@   nopanic
 //@   use forkloop(1, wg, len(rules), 0)
@@ -285,6 +297,7 @@ package engine
 //@   ensures [C05,C12] mix: cursor > 0 ==> ((result != nil) <==> (failed || cfailed)) && (len(rules) >= 3 ==> cursor == 1 && (nfork == 0 || nfork == len(rules) - 1) && (nfork == 0 <==> failed)) && (len(rules) <= 2 ==> nfork == 0 && (!failed ==> cursor == len(rules)))
 //@   ensures [C12] nothingselected: cursor == 0 ==> result != nil && nfork == 0
 //@   ensures [C11] resultmap: rb != nil ==> !pend && fresh(g.returnResult) && dom(g.returnResult) == R
+//@   ensures [C11] newmap: rb != nil ==> g.returnResult != nil && fresh(g.returnResult)
 //@   modifies frame rulerun, g.returnResult
 //@   nopanic
 //@   loop 1 invariant cur: cursor == rangeindex + 1 && 0 <= cursor && cursor <= len(rules) && len(rules) == 2 && !failed && nfork == 0 && stage == 0
@@ -321,6 +334,7 @@ package engine
 //@   ensures [C05,C12] invmix: len(rules) > 2 ==> nfork == len(rules) - 1 && ((result != nil) <==> (failed || cfailed)) && (cursor == 1 || cursor == 0) && (cursor == 0 <==> cfailed)
 //@   ensures [C12] nothingselected: rb != nil && len(rules) == 0 ==> result != nil && cursor == 0 && nfork == 0
 //@   ensures [C11] resultmap: rb != nil ==> !pend && fresh(g.returnResult) && dom(g.returnResult) == R
+//@   ensures [C11] newmap: rb != nil ==> g.returnResult != nil && fresh(g.returnResult)
 //@   modifies frame rulerun, g.returnResult
 //@   nopanic
 //@   loop 1 invariant cur: cursor == rangeindex + 1 && 0 <= cursor && cursor <= len(rules) && len(rules) <= 2 && !failed && nfork == 0 && stage == 0
@@ -353,6 +367,7 @@ package engine
 //@   ensures [C05] contall: rb != nil && nSort > 0 && mConcurrent > 0 && nSort + mConcurrent <= len(S) && b ==> cursor == nSort && nfork == mConcurrent && ((result != nil) <==> (failed || cfailed))
 //@   ensures [C05] stopfirst: rb != nil && nSort > 0 && mConcurrent > 0 && nSort + mConcurrent <= len(S) && !b ==> (failed ==> result != nil && nfork == 0) && (!failed ==> cursor == nSort && nfork == mConcurrent && ((result != nil) <==> cfailed))
 //@   ensures [C11] resultmap: rb != nil ==> !pend && fresh(g.returnResult) && dom(g.returnResult) == R
+//@   ensures [C11] newmap: rb != nil ==> g.returnResult != nil && fresh(g.returnResult)
 //@   modifies frame rulerun, g.returnResult
 //@   nopanic
 //@   loop 0 invariant cur: cursor == rangeindex + 1 && 0 <= cursor && cursor <= nSort && nfork == 0 && stage == 0 && !cfailed
@@ -381,6 +396,7 @@ package engine
 //@   ensures [C05] contall: rb != nil && nConcurrent > 0 && mSort > 0 && nConcurrent + mSort <= len(S) && b ==> cursor == mSort && nfork == nConcurrent && ((result != nil) <==> (failed || cfailed))
 //@   ensures [C05] stopfirst: rb != nil && nConcurrent > 0 && mSort > 0 && nConcurrent + mSort <= len(S) && !b ==> nfork == nConcurrent && (cfailed ==> result != nil && cursor == 0) && (!cfailed && failed ==> result != nil) && (!cfailed && !failed ==> cursor == mSort && result == nil)
 //@   ensures [C11] resultmap: rb != nil ==> !pend && fresh(g.returnResult) && dom(g.returnResult) == R
+//@   ensures [C11] newmap: rb != nil ==> g.returnResult != nil && fresh(g.returnResult)
 //@   modifies frame rulerun, g.returnResult
 //@   nopanic
 //@   use forkloop(0, wg, nConcurrent, 0)
@@ -415,6 +431,7 @@ package engine
 //@   ensures [C05] stopfirst: rb != nil && nConcurrent > 0 && mConcurrent > 0 && nConcurrent + mConcurrent <= len(S) && !b ==> (c1failed ==> result != nil && nfork == nConcurrent) && (!c1failed ==> nfork == nConcurrent + mConcurrent && ((result != nil) <==> cfailed))
 //@   ensures [C05] nodirect: cursor == 0
 //@   ensures [C11] resultmap: rb != nil ==> !pend && fresh(g.returnResult) && dom(g.returnResult) == R
+//@   ensures [C11] newmap: rb != nil ==> g.returnResult != nil && fresh(g.returnResult)
 //@   modifies frame rulerun, g.returnResult
 //@   nopanic
 //@   use forkloop(0, nwg, nConcurrent, 0)
@@ -450,6 +467,7 @@ package engine
 //@   ensures [C05] contall: cursor > 0 && b ==> cursor == nSort && nfork == mConcurrent && ((result != nil) <==> (failed || cfailed))
 //@   ensures [C05] stopfirst: cursor > 0 && !b ==> (failed ==> result != nil && nfork == 0) && (!failed ==> cursor == nSort && nfork == mConcurrent && ((result != nil) <==> cfailed))
 //@   ensures [C11] resultmap: rb != nil ==> !pend && fresh(g.returnResult) && dom(g.returnResult) == R
+//@   ensures [C11] newmap: rb != nil ==> g.returnResult != nil && fresh(g.returnResult)
 //@   modifies frame rulerun, g.returnResult
 //@   nopanic
 //@   loop 1 invariant cur: cursor == rangeindex + 1 && 0 <= cursor && cursor <= nSort && nfork == 0 && stage == 0 && !cfailed && len(rules) == len(names) && len(names) == nSort + mConcurrent && nSort > 0 && mConcurrent > 0
@@ -488,6 +506,7 @@ package engine
 //@   ensures [C05] contall: nfork > 0 && b ==> cursor == mSort && nfork == nConcurrent && ((result != nil) <==> (failed || cfailed))
 //@   ensures [C05] stopfirst: nfork > 0 && !b ==> nfork == nConcurrent && (cfailed ==> result != nil && cursor == 0) && (!cfailed && failed ==> result != nil) && (!cfailed && !failed ==> cursor == mSort && result == nil)
 //@   ensures [C11] resultmap: rb != nil ==> !pend && fresh(g.returnResult) && dom(g.returnResult) == R
+//@   ensures [C11] newmap: rb != nil ==> g.returnResult != nil && fresh(g.returnResult)
 //@   modifies frame rulerun, g.returnResult
 //@   nopanic
 //@   use forkloop(1, wg, nConcurrent, 0)
@@ -532,6 +551,7 @@ package engine
 //@   ensures [C05] stopfirst: nfork > 0 && !b ==> (c1failed ==> result != nil && nfork == nConcurrent) && (!c1failed ==> nfork == nConcurrent + mConcurrent && ((result != nil) <==> cfailed))
 //@   ensures [C05] nodirect: cursor == 0
 //@   ensures [C11] resultmap: rb != nil ==> !pend && fresh(g.returnResult) && dom(g.returnResult) == R
+//@   ensures [C11] newmap: rb != nil ==> g.returnResult != nil && fresh(g.returnResult)
 //@   modifies frame rulerun, g.returnResult
 //@   nopanic
 //@   use forkloop(1, nwg, nConcurrent, 0)
@@ -574,6 +594,7 @@ package engine
 //@   ensures [C13] errpolicy: rb != nil ==> ((result != nil) <==> cfailed) && njoined == nfork
 //@   ensures [C13] norb: rb == nil ==> result != nil && nfork == 0
 //@   ensures [C11] resultmap: rb != nil ==> fresh(g.returnResult) && dom(g.returnResult) == R
+//@   ensures [C11] newmap: rb != nil ==> g.returnResult != nil && fresh(g.returnResult)
 //@   modifies frame rulerun, g.returnResult
 //@   nopanic
 //@   loop 0 invariant layers: 0 <= i && i <= len(dag) && njoined == nfork && joinedfail == cfailed && !cfailed && kc == KC0
